@@ -122,7 +122,10 @@ def unit_mapping(rnd, style):
         pairs = [(a, b) for a, b in zip(d, d1) if a or b]
         ratios = {(a / b) if b else None for a, b in pairs}
         return len(ratios) > 1
-    others = [(d, v) for d, v in sorted(bydim.items()) if independent(d) and d[7] == 0]
+    # (the second dimension class also differs in WHICH base dimensions occur: Quantity.rebase() keys units by the set of
+    #  occurring dimensions, so N*J or Pa/W would be merged - a defect of rebase() outside C07, reported separately)
+    support = lambda d: tuple(bool(x) for x in d)
+    others = [(d, v) for d, v in sorted(bydim.items()) if independent(d) and d[7] == 0 and support(d) != support(d1)]
     d2, o = rnd.choice(others)
     m = dict(ident)
     m.update({"m": fam[0], "c:m": fam[1], "k:m": fam[2], "s": rnd.choice(o)})
